@@ -7,6 +7,7 @@
     * inner `for j` loop (three-term recurrence)            → `legPairR rnd z n`  (`legendreP`, `legendrePrev`)
     * `pp = n (z p1 - p2)/(z z - 1)`                          → `legendreDeriv`
     * `z = z1 - p1/pp`, `while(true)` until `|z-z1| ≤ eps`   → `newtonStep`, `newtonLoop` (fuel)
+    * recurrence once more at the converged `z` (fix f38103c)  → `newtonRootPP`
     * start value `cos(π (i+0.75)/(n+0.5))`                   → parameter `cospi q = cos(π q)`
     * affine map, mirrored assignment `[i]`, `[n-i-1]`       → `glAssemble n xmin xmax z pp`
     * the overloads                                          → `integrateGLvals`, `integrateGLrule`, `integrateGL`
@@ -53,6 +54,19 @@ def newtonLoop (rnd : Rat → Rat) (eps : Rat) (n : Nat) : Nat → Rat → Optio
     if pp = 0 then none else
     let z' := rnd (z - p.1 / pp)
     if rabs (z' - z) ≤ eps then some (z', pp) else newtonLoop rnd eps n f z'
+
+/-- After the loop the C++ (fix f38103c) evaluates the recurrence ONCE MORE at the converged `z` and forms
+    `pp = n (z p1 - p2)/(z z - 1)` there: the weight uses the derivative at the node actually returned, not at the
+    previous iterate.  Returns the final `(z, pp)`; `none` as for `newtonLoop`, or when `z² = 1` / `pp = 0` at the
+    final point (inf/NaN weight in the C++). -/
+def newtonRootPP (rnd : Rat → Rat) (eps : Rat) (n : Nat) (fuel : Nat) (z0 : Rat) : Option (Rat × Rat) :=
+  match newtonLoop rnd eps n fuel z0 with
+  | none => none
+  | some (z, _) =>
+    let p := legPairR rnd z n
+    if z * z - 1 = 0 then none else
+    let pp := rnd (ppOf n z p.1 p.2)
+    if pp = 0 then none else some (z, pp)
 
 /-- start value of root `i`: `cos(π (i + 0.75)/(n + 0.5))`; `cospi q` stands for `cos(π q)` -/
 def guessArg (n i : Nat) : Rat := ((i : Rat) + 3 / 4) / ((n : Rat) + 1 / 2)
@@ -107,7 +121,7 @@ def weight (n : Nat) (xmin xmax : Rat) (z pp : Nat → Rat) (k : Nat) : Rat := (
 
 /-- converged `(z_i, pp_i)` for `i < m`, `none` if any iteration is undefined -/
 def glRoots (rnd : Rat → Rat) (cospi : Rat → Rat) (eps : Rat) (fuel n : Nat) : Option (List (Rat × Rat)) :=
-  (List.range (half n)).mapM (fun i => newtonLoop rnd eps n fuel (cospi (guessArg n i)))
+  (List.range (half n)).mapM (fun i => newtonRootPP rnd eps n fuel (cospi (guessArg n i)))
 
 def glRule (rnd : Rat → Rat) (cospi : Rat → Rat) (eps : Rat) (fuel n : Nat) (xmin xmax : Rat) :
     Option (List (Rat × Rat)) :=
